@@ -2935,8 +2935,10 @@ static hawk_rtx_t* open_rtx_std (
 
 	if (rtx->hawk->opt.trait & HAWK_RIO)
 	{
-		if (hawk_htb_init(&rxtn->cmgrtab, hawk_getgem(hawk), 256, 70, HAWK_SIZEOF(hawk_ooch_t), 1) <= -1)
+		/* the table belongs to the runtime context: its errors must show up there, not on the hawk object */
+		if (hawk_htb_init(&rxtn->cmgrtab, hawk_rtx_getgem(rtx), 256, 70, HAWK_SIZEOF(hawk_ooch_t), 1) <= -1)
 		{
+			hawk_rtx_errortohawk (rtx, hawk);
 			hawk_rtx_close (rtx);
 			return HAWK_NULL;
 		}
